@@ -23,7 +23,7 @@ ASSUMPTIONS = [
     'retry: every failing command re-submits one command from its errback (re-entrancy into queue_command during the loss)',
     'nsub: the first disconnect notification requested before the loss submits one command from inside its callback',
 ]
-BOUNDS = {'quick': {'pre_loss_states': '12 (three commands with identical text, QUIT in flight, idle, 1-3 commands plain / callback, mid-reply, mid-data-block, PROTOCOLINFO outstanding, AUTHENTICATE outstanding under NULL and password auth with a command queued behind)', 'post_loss_commands': '0..3 (plain/callback)', 'when_disconnected_requests': '0..2 before, 0..2 after',
+BOUNDS = {'quick': {'pre_loss_states': '13 (in-flight command already cancelled by its caller, three commands with identical text, QUIT in flight, idle, 1-3 commands plain / callback, mid-reply, mid-data-block, PROTOCOLINFO outstanding, AUTHENTICATE outstanding under NULL and password auth with a command queued behind)', 'post_loss_commands': '0..3 (plain/callback)', 'when_disconnected_requests': '0..2 before, 0..2 after',
                     'partial_line_prefix': 'prefix lengths {0,1,9,len-2,len-1} (quick), every prefix length (thorough)'},
           'thorough': {'post_loss_commands': '0..4'}}
 OUTSIDE = ['a second connectionLost notification', 'more than 2 queued commands before the loss']
@@ -89,6 +89,13 @@ def _loss(st, nbytes, clean, m, kinds, wb, wa, retry=False, nsub=False):
                 # three commands with the very same text: one in flight, two queued
                 for lab in ('s1', 's2', 's3'):
                     outs.append(watch(p.queue_command('GETINFO same-text'), lab))
+            if st == 12:
+                # the caller of the in-flight command gave up on it (cancelled its Deferred); two commands are queued behind it
+                d0 = p.queue_command('GETINFO given-up')
+                d0.addErrback(lambda f: None)
+                d0.cancel()
+                outs.append(watch(p.queue_command('GETINFO behind-1'), 'b1'))
+                outs.append(watch(p.queue_command('GETINFO behind-2'), 'b2'))
             if st == 11:
                 # QUIT in flight (Tor hangs up without having answered), a command queued behind it
                 outs.append(watch(p.quit(), 'quit'))
@@ -142,7 +149,7 @@ def _loss(st, nbytes, clean, m, kinds, wb, wa, retry=False, nsub=False):
     return ''
 
 
-NST = 12
+NST = 13
 _ST = [{'st': s} for s in range(NST)]
 _STM = [{'st': s, 'm': m} for s in range(NST) for m in range(4)]
 _OFFS = (0, 1, 9, len(NEXT_LINE) - 2, len(NEXT_LINE) - 1)
